@@ -76,6 +76,8 @@ LAYOUT = [
     "def nada_main():\n    p = Party(name=\"P\")\n    x = SecretInteger(Input(name=\"x\", party=p))\n    z = (x\n\n*\n\nx)\n    w = (1 <\n\n'a')\n    return",
     "from nada_dsl import *\n\ndef nada_main():\n    p = Party(name=\"P\")\n    x = SecretInteger(Input(name=\"x\", party=p))\n"
     "    (q, r) = (lambda v: v, eval(\"x\"))\n    a = b = p.name\n    return [Output(x, \"o\", p)]\n",
+    # an indexing expression whose bracket does not directly follow the indexed value (a space, a parenthesis, a line break)
+    "from nada_dsl import *\n\ndef nada_main():\n    l = [1, 2, 3]\n    x = l [\"a\"]\n    y = (l)[\"b\"]\n    z = (l\n      [\"c\"])\n    w = l [0] + l\t[1]\n    m = [[1]]\n    v = m [0] [0]\n    return []\n",
     # helpers used as values (their inferred type is a Callable, not a class)
     "from nada_dsl import *\n\ndef twice(a: SecretInteger) -> SecretInteger:\n    return a + a\n\ndef nada_main():\n    p = Party(name=\"P\")\n"
     "    x = SecretInteger(Input(name=\"x\", party=p))\n    g = twice\n    fs = [twice, twice]\n    y = g(x)\n    z = twice\n    return [Output(y, \"o\", p)]\n",
